@@ -214,6 +214,50 @@ def h_converged(ctx, cfg):
         ctx.check(f"converged => |G_{k}(y) - {k}| <= ||A|| * tol", ctx.implies(small, ctx.and_(ctx.le(d, bound), ctx.le(-bound, d))))
 
 
+def h_sequential(ctx, cfg):
+    """MDASequential with sub-MDAs of DIFFERENT (symbolic) tolerances: when the sequence stops before running its last sub-MDA it
+    claims convergence at ITS OWN tolerance, so the returned couplings must satisfy every discipline within ||A|| * tol_sequence."""
+    from gemseo.mda.gauss_seidel import MDAGaussSeidel
+    from gemseo.mda.jacobi import MDAJacobi
+    from gemseo.mda.sequential_mda import MDASequential
+
+    _install(ctx)
+    system = SYSTEMS[cfg["system"]]
+    log = []
+    discs = _mk_disciplines(ctx, system, list(range(len(system))), log)
+    xs = sorted({xin for (_, _, _, xin) in system if xin})
+    ys = [o for (_, o, _, _) in system]
+    x = {k: ctx.real(k) for k in xs}
+    y0 = {k: ctx.real(k + "_init") for k in ys}
+    K = cfg["K"]
+    mk = {"gs": lambda: MDAGaussSeidel(discs, max_mda_iter=K, tolerance=1e-6, log_convergence=False),
+          "jacobi": lambda: MDAJacobi(discs, n_processes=1, max_mda_iter=K, tolerance=1e-6, log_convergence=False)}
+    subs = [mk[k]() for k in cfg["subs"]]
+    seq = MDASequential(discs, subs, max_mda_iter=K, tolerance=1e-6, log_convergence=False)
+    tols = [ctx.real(f"tol_sub{i}") for i in range(len(subs))]
+    tol = ctx.real("tol")
+    for t in [*tols, tol]:
+        ctx.assume(ctx.lt(0.0, t))
+    for m, t in zip(subs, tols):
+        m.settings.__dict__["tolerance"] = t
+    seq.settings.__dict__["tolerance"] = tol
+    seq.scaling = seq.ResidualScaling("no_scaling")
+    out = seq.execute({k: ctx.array([v]) for k, v in {**x, **y0}.items()})
+    yr = {k: elems(out[k])[0] for k in ys}
+    for k in ys:
+        ctx.observe(k, np.ravel(out[k]))
+    last_not_run = len(subs[-1].residual_history) == 0
+    ctx.observe("last_sub_mda_run", [0.0 if last_not_run else 1.0])
+    if not last_not_run:
+        return   # the sequence went through its last sub-MDA: what it then guarantees depends on that MDA's own settings
+    g = _G(system, x, yr)
+    nA = _norm_inf_A(system)
+    bound = float(nA) * tol if not ctx.symbolic else _frac(nA) * tol
+    for k in ys:
+        d = g[k] - yr[k]
+        ctx.check(f"sequence stopped early => |G_{k}(y) - {k}| <= ||A|| * tol(sequence)", ctx.and_(ctx.le(d, bound), ctx.le(-bound, d)))
+
+
 def configs(tier):
     out = []
     quick = tier == "quick"
@@ -237,6 +281,9 @@ def configs(tier):
                 out.append(("converged", dict(system=system, mda=mda, K=K, omega=0.5, scaling="no_scaling")))
                 if not quick:
                     out.append(("converged", dict(system=system, mda=mda, K=K, scaling="n_coupling_variables")))
+    for system in (("ring2",) if quick else ("ring2", "self")):
+        for subs in (["gs", "jacobi"], ["jacobi", "gs"]):
+            out.append(("sequential", dict(system=system, subs=subs, K=2)))
     for system, K in (("tri2", 3), ("tri3", 4)):
         n = len(SYSTEMS[system])
         for mda in ("jacobi", "gs"):
@@ -245,4 +292,4 @@ def configs(tier):
     return out
 
 
-HARNESSES = {"stationary": h_stationary, "converged": h_converged}
+HARNESSES = {"stationary": h_stationary, "converged": h_converged, "sequential": h_sequential}
